@@ -144,6 +144,9 @@ def run(ctx):
         ctx.check(okcl, "DOM", "C02:DOM:replay-lookup-failure", "a replay frame whose buffer vanished yields the unknown-anchor error",
                   "the replay loop no longer turns a missing buffer into the unknown-anchor error", config, ctx.where(ni))
         rule_record(ctx, fx, config)
+        # anchors are per document: the table is cleared whole at every boundary (shared rule, C11)
+        from .C11 import rule_reset_whole
+        rule_reset_whole(ctx, fx, config, prop="C02")
         recs = [b for b, t in ni.calls() if fx.callee(t) == LE + "::record"]
         bstart = [b for b, t in ni.calls() if fx.callee(t) == LE + "::bump_depth_on_start"]
         bend = [b for b, t in ni.calls() if fx.callee(t) == LE + "::bump_depth_on_end"]
